@@ -139,6 +139,10 @@ class Report:
         for t in self.tool_errors:
             print(f"TOOL-ERROR property={self.prop} {t}")
         self.write_evidence(len(new))
+        # a violation reproduced on a concrete input stands even if part of the machinery could not
+        # run on the changed code (e.g. a sidecar that no longer fits a rewritten function)
+        if any(v.concrete for v in new):
+            return EXIT_VIOLATION
         if self.tool_errors:
             return EXIT_TOOL
         if new:
